@@ -26,7 +26,8 @@ fn streams(n: usize, both: bool) -> Vec<StreamSpec> {
         StreamSpec {
             tag: 1,
             opener: 0,
-            opener_plan: EndPlan::Split(fwd, vec![Op::ReadToEof(8)]),
+            // (reads smaller than the peer's 2-byte frames: a frame taken in pieces is still one frame)
+            opener_plan: EndPlan::Split(fwd, vec![Op::ReadToEof(1)]),
             acceptor_plan: EndPlan::Split(back, vec![Op::ReadToEof(8)]),
         },
         // a stream whose reader is absent: its writer may block, nobody else may
